@@ -423,7 +423,9 @@ def r5(ctx):
                     n_glob += 1
                     rebound = any(isinstance(g, ast.Global) and n.id in g.names for f2 in ana.prog.functions.values() if f2.module is mi
                                   for g in Resolver.walk_own(f2.node))
-                    if rebound or mi.global_assign_count.get(n.id, 0) != 1 or not (isinstance(st, ast.Assign) and isinstance(st.value, ast.Constant)):
+                    const = isinstance(st, ast.Assign) and (isinstance(st.value, ast.Constant) or
+                                                            ana.builder(fi)._constant_expression(st.value))   # LOG_2PI = math.log(2 * math.pi)
+                    if rebound or mi.global_assign_count.get(n.id, 0) != 1 or not const:
                         bad.append(n)
         ctx.check(not bad, fi, f"kernel reads only modules, functions and constants from module scope ({n_glob} global reads)",
                   line=bad[0].lineno if bad else fi.node.lineno, role="globals", expected="no mutable module-level object",
